@@ -10,6 +10,7 @@ import (
 	"path/filepath"
 	"sort"
 	"strings"
+	"time"
 
 	"verif/harness/core"
 	"verif/harness/ref"
@@ -88,7 +89,7 @@ var histShapes = []hshape{
 	{Name: "names-a-tool-might-reserve", Tasks: []htask{{Name: "last", Lits: []string{"a.txt"}, NCmd: 1}, {Name: "version", Lits: []string{"b.txt"}, Deps: []string{"last"}, NCmd: 1}}, Files: []string{"a.txt", "b.txt"}},
 	{Name: "declared-output-feeds-a-glob", Tasks: []htask{{Name: "A", Lits: []string{"a.txt"}, NCmd: 1, Copies: [][2]string{{"a.txt", "g.txt"}}, Outs: []string{"g.txt"}}, {Name: "B", Lits: []string{"b.txt"}, Globs: []string{"g*.txt"}, Deps: []string{"A"}, NCmd: 1}}, Files: []string{"a.txt", "b.txt", "g.txt"}},
 	{Name: "generator-two-levels-up", Tasks: []htask{{Name: "A", Lits: []string{"a.txt"}, NCmd: 1, Copies: [][2]string{{"a.txt", "g.txt"}}}, {Name: "B", Lits: []string{"b.txt"}, Deps: []string{"A"}, NCmd: 1}, {Name: "C", Lits: []string{"b.txt"}, Globs: []string{"g*.txt"}, Deps: []string{"B"}, NCmd: 1}}, Files: []string{"a.txt", "b.txt", "g.txt"}},
-	{Name: "generator-behind-a-grouping-task", Tasks: []htask{{Name: "A", Lits: []string{"a.txt"}, NCmd: 1, Copies: [][2]string{{"a.txt", "g.txt"}}}, {Name: "B", Deps: []string{"A"}, NCmd: 0}, {Name: "C", Lits: []string{"b.txt"}, Globs: []string{"g*.txt"}, Deps: []string{"B"}, NCmd: 1}}, Files: []string{"a.txt", "b.txt", "g.txt"}},
+	{Name: "generator-behind-a-grouping-task", Tasks: []htask{{Name: "A", Lits: []string{"a.txt"}, NCmd: 1, Copies: [][2]string{{"a.txt", "g.txt"}}}, {Name: "B", Lits: []string{"b.txt"}, Deps: []string{"A"}, NCmd: 0}, {Name: "C", Lits: []string{"b.txt"}, Globs: []string{"g*.txt"}, Deps: []string{"B"}, NCmd: 1}}, Files: []string{"a.txt", "b.txt", "g.txt"}},
 	{Name: "generated-input", Tasks: []htask{{Name: "A", Lits: []string{"a.txt"}, NCmd: 1, Copies: [][2]string{{"a.txt", "g.txt"}}}, {Name: "B", Lits: []string{"g.txt"}, Deps: []string{"A"}, NCmd: 1}}, Files: []string{"a.txt", "g.txt"}},
 	{Name: "chain-of-three", Tasks: []htask{{Name: "A", Lits: []string{"a.txt"}, NCmd: 1}, {Name: "B", Lits: []string{"b.txt"}, Deps: []string{"A"}, NCmd: 1}, {Name: "C", Deps: []string{"B"}, NCmd: 1}}, Files: []string{"a.txt", "b.txt"}},
 }
@@ -278,7 +279,7 @@ type hop struct {
 	Value string   `json:"value,omitempty"`
 	Tasks []string `json:"tasks,omitempty"`
 	Force bool     `json:"force,omitempty"`
-	Fail  string   `json:"fail,omitempty"` // "T.i": command i of task T fails in this invocation
+	Fail  string   `json:"fail,omitempty"`      // "T.i": command i of task T fails in this invocation
 	Clean bool     `json:"via_clean,omitempty"` // binary only: `spok --clean` (Tasks = ["clean"], a user-defined task that is run like any other)
 }
 
@@ -361,8 +362,18 @@ func (sb *sandbox) applyOnDisk(op hop) {
 	switch op.Kind {
 	case "write":
 		_ = os.MkdirAll(filepath.Dir(full), 0o755)
+		var keep *time.Time
+		if fi, err := os.Lstat(full); err == nil && fi.Mode().IsRegular() && fi.Size() == int64(len(op.Value)) && core.Hash64(op.String())%2 == 0 {
+			// the new content has the size of the old one: every second such edit also keeps the
+			// modification time (cp -p, rsync -t, files unpacked from one archive)
+			t := fi.ModTime()
+			keep = &t
+		}
 		_ = os.Remove(full) // (a symlink is replaced, not written through)
 		_ = os.WriteFile(full, []byte(op.Value), 0o644)
+		if keep != nil {
+			_ = os.Chtimes(full, *keep, *keep)
+		}
 	case "delete":
 		_ = os.Remove(full)
 	case "link":
@@ -769,6 +780,26 @@ func judgeRun(s hshape, pre hstate, o hobs, st *hstate, c02 c02mode) hverdict {
 		}
 		reached := haveRep || exec
 		if !reached {
+			if errored && !o.Killed && o.Op.Fail == "" && len(o.Log) == 0 && !strings.HasPrefix(o.Err, "CRASH:") {
+				// spok gave up before running anything, in an invocation in which nothing is set up to fail.
+				// Where the model demands a skip that is a violation of C02 (an error is not "skipped")
+				// unless an input of some task of the closure cannot be read
+				strict := c02 == c02All || (c02 == c02SameDecl && pre.Decl[name] == declOf(t))
+				readable := true
+				for _, n2 := range o.Op.Tasks {
+					if s.task(n2) == nil {
+						readable = false // an undefined task was asked for: the error is the right answer
+					}
+				}
+				for _, n2 := range closure {
+					if t2 := s.task(n2); t2 != nil && (missingLiteral(t2, cur) || strings.Contains(snapshot(t2, cur), "<unreadable>")) {
+						readable = false
+					}
+				}
+				if strict && readable && !o.Op.Force && snap != noFiles && last == snap && pre.LastFail[name] == "" {
+					bad("C02", "unchanged-task-skipped", "task %s is up to date (inputs {%s} are those of its last success) but spok stopped with an error instead of skipping it: %s", name, snap, core.Trunc(o.Err, 300))
+				}
+			}
 			if errored || o.Killed || o.Exit != 0 {
 				continue // spok stopped before this task: nothing to judge
 			}
